@@ -1919,7 +1919,9 @@ class Preprocess(object):
         if not node.cxx_template:
             check_return_pointer(node, node.ast)
 
-        options = self.newlibrary.options
+        # Use the options of the function so that the name templates
+        # can be set on any enclosing scope.
+        options = node.options
         # XXX - not sure if result uses any of these attributes.
 #        typemap.set_buf_variable_names(
 #            options, node.ast.attrs, "aaa")
